@@ -6,7 +6,7 @@ DRIVERS = [
     dict(name="life_verif32", src="life.cpp", defines=["LIFE_VERIF"], ops=["life32"]),
     dict(name="life_noop", src="life.cpp", defines=["LIFE_NOOP"], ops=["lifen"]),
 ]
-ALPHA14 = ["c:0:1", "c:0:0", "d:0", "m:0", "f:0", "r:0:0:1", "u:0", "l:0:5", "il:0:5", "x:0:64", "gs:0:0",
+ALPHA14 = ["c:0:1", "c:0:0", "d:0", "m:0", "f:0", "r:0:0:1", "u:0", "l:0:5", "il:0:5", "lb:0:5", "lb:0:6", "ilb:0:6", "lb:1:5", "x:0:64", "gs:0:0",
            "c:1:1", "d:1", "x:1:4096", "r:1:1:1", "r:1:0:1", "m:1", "c:2:1", "d:2", "x:2:0", "q:0"]
 
 
